@@ -246,7 +246,8 @@ func famSourceFunctionNames(r *Run) {
 			r.count("srcfn:" + o.Kind)
 			if o.Kind == "panic" {
 				r.violate("source-function-names", e, d, "panic in a function that the library's table lists beyond the specification's 26", o.Msg)
-			} else if o.Kind == "val" {
+			} else if o.Kind == "val" && r.prop != "C16" {
+				// (for C16 the question is what the value is made of: the generic oracle of addSearch looks at it)
 				r.violate("source-function-names", e, d, "a call of a function name the specification does not define returns a value instead of an error", o.String())
 			}
 			r.addSearch("source-function-names", e, d, "exact")
